@@ -54,6 +54,11 @@ func (o *orderedCached) ForEach(fn func(Hash, uint64) error) error {
 	var all []kv
 	o.CachedLeavesInterface.ForEach(func(k Hash, v uint64) error { all = append(all, kv{k, v}); return nil })
 	sort.Slice(all, func(i, j int) bool {
+		// a total order: a broken forest may cache two leaves at one position, and ties left to the
+		// underlying map's random order would make executions irreproducible
+		if all[i].v == all[j].v {
+			return (bytes.Compare(all[i].k[:], all[j].k[:]) < 0) != o.desc
+		}
 		if o.desc {
 			return all[i].v > all[j].v
 		}
